@@ -5,6 +5,7 @@ A recipe is the JSON form of the uniform node records of spec/PyTealSem.tla / sp
   program = {main: node, rt: [routine], vars: [{t, slot}], mode: "app"|"sig"}
   routine = {pk: ["v"|"r"], ret: "n"|"u"|"b", body: node, locals: [var ids]}
 This module is glue: it calls the public constructors the recipe names, nothing else."""
+import json
 import os
 import sys
 
@@ -89,8 +90,19 @@ class Builder:
 
     # -- expression trees ------------------------------------------------------------------------
     def build(self, node, params=(), mvs=None):
+        """prog["share"]: structurally equal sub-trees of one routine are built once and the same Python object is used at
+        every occurrence (a DAG instead of a tree - legal PyTeal, and what user code with a helper variable produces)"""
         if mvs is None:
             mvs = {}
+        if self.prog.get("share") and node["a"] and node["k"] not in ("MV",):
+            key = (json.dumps(node, sort_keys=True), tuple(id(p) for p in params))
+            memo = self.__dict__.setdefault("_memo", {})
+            if key not in memo:
+                memo[key] = self._build(node, params, mvs)
+            return memo[key]
+        return self._build(node, params, mvs)
+
+    def _build(self, node, params, mvs):
         B = lambda x: self.build(x, params, mvs)  # noqa: E731
         k, a, sp = node["k"], node["a"], node.get("sp", 0)
         if k == "Int":
@@ -116,6 +128,9 @@ class Builder:
             if sp == 3:
                 import base64
                 return pt.Bytes("base32", base64.b32encode(raw).decode().rstrip("="))
+            if sp == 4:                                # base32 with its padding
+                import base64
+                return pt.Bytes("base32", base64.b32encode(raw).decode())
             if sp == 1:
                 return pt.Bytes("base16", raw.hex())
             if sp == 2:
